@@ -47,7 +47,8 @@ def aggregate (f : Function) (rows : List Memo) (key : Str) : Str × Bool :=
     if rows.isEmpty then ([], true) else
     let (v, ex) := varianceQ rows key rows.length
     let r := showNumQ v ex
-    (r.1, r.2 && dyadicSmall (meanQ rows key))
+    -- every term is divided by n in f64: exact only when n is a power of two
+    (r.1, r.2 && dyadicSmall (meanQ rows key) && pow2? rows.length)
   | .VarSamp =>
     if rows.isEmpty then ([], true) else
     let n := if rows.length == 1 then 1 else rows.length - 1
